@@ -503,7 +503,7 @@ pub fn property() -> Property {
   Property {
     id: "C07",
     level: "exploration",
-    rule: "complete boundary lattice B x B (B = values adjacent to 0, 1, 2^32, 2^63, 2^64, 2^127, 2^128, (p-1)/2, p, and inverses landing there) for every binary operation and B for every unary one, plus generated uniform / near-boundary operands and 192-bit exponents; 24-byte strings for decoding (canonical, value+k*p, high bit set, specials around p, 2p, 2^129, 2^192); published constants checked against the ff::PrimeField documentation. Oracle: num-bigint arithmetic mod p. Non-trivial: an operand or result within 2 of a boundary mark, a carry past p or past 128 bits in the integer result, or a non-canonical string; distinct by operand values.",
+    rule: "complete boundary lattice B x B (B = values adjacent to 0, 1, 2^32, 2^63, 2^64, 2^127, 2^128, (p-1)/2, p, and inverses landing there) for every binary operation (all operator forms, Sum/Product, ct_eq, conditional_select, the sqrt_ratio contract of ff::Field) and B for every unary one (neg, double, square, cube, invert, sqrt, sqrt_alt, pow, is_zero, parity, from_str_vartime), plus generated uniform / near-boundary operands and 192-bit exponents; 24-byte strings for decoding (canonical, value+k*p, high bit set, specials around p, 2p, 2^129, 2^192); published constants checked against the ff::PrimeField documentation. Oracle: num-bigint arithmetic mod p. Non-trivial: an operand or result within 2 of a boundary mark, a carry past p or past 128 bits in the integer result, or a non-canonical string; distinct by operand values.",
     assumptions: vec![
       "num-bigint 0.3.3 is the arithmetic yardstick",
       "p-1 = 2*(2^127+6225) is re-verified at run time by Miller-Rabin (24 bases)",
